@@ -5,6 +5,7 @@ package c07
 import (
 	"fmt"
 	"os"
+	"runtime"
 	"runtime/metrics"
 	"syscall"
 	"testing"
@@ -48,24 +49,134 @@ func allocated() uint64 {
 	return allocSample[0].Value.Uint64()
 }
 
+// The counter above is cheap (no stop-the-world) but coarse: the runtime accounts small objects when
+// a span of them is handed back by the allocating P (or at the next GC cycle), not when they are
+// allocated, so the difference over one call can be off by a few hundred KB in either direction
+// (objects over 32 KB are accounted at once). It is used as a screen; a call it puts over half the
+// budget is repeated under runtime.ReadMemStats, which stops the world and flushes every P's
+// pending accounting, and only that figure is judged.
+var msBefore, msAfter runtime.MemStats
+
+func preciseAlloc(e *entry, b []byte) uint64 {
+	in := exact(b)
+	runtime.ReadMemStats(&msBefore)
+	func() {
+		defer func() { recover() }() // panics are judged by the first, screened call
+		e.Call(in)
+	}()
+	runtime.ReadMemStats(&msAfter)
+	return msAfter.TotalAlloc - msBefore.TotalAlloc
+}
+
 var wd *vf.Watchdog
 
+// allocSlack is the input-independent part of the allocation budget. The largest fixed-size
+// allocation a decoder legitimately makes is nbt.Receive's buffer for an announced frame (17-bit
+// length: up to 128 KiB before the payload is read); twice that leaves it at ~50 % of the budget while
+// any allocation sized by a 16-bit count of multi-byte elements (>= 8 bytes each: 512 KiB) or by a
+// wider field exceeds it by a factor of two or more.
+const allocSlack = 256 << 10
+
+// What an entry point allocates whatever it is given is not "out of proportion to the input" but a
+// constant of the call (guid.FromString compiles up to five regular expressions per call, ~0.7 MB;
+// credentials.ParseLMNTHashes, ip.NewTCPPortRangeFromString one each). It is measured once per entry
+// point and process on inputs that carry no hostile count: the empty input, every unmodified seed,
+// every seed with its first byte inverted and every seed without its last byte; the largest of those
+// (at most 1 MiB, the former flat allowance) is added to the budget of that entry point.
+const baselineCap = 1 << 20
+
+var (
+	baselines = map[string]uint64{}
+	seedCache = map[string][][]byte{}
+)
+
+func seedsOf(e *entry) [][]byte {
+	sd, ok := seedCache[e.Name]
+	if !ok {
+		sd = e.Seeds()
+		seedCache[e.Name] = sd
+	}
+	return sd
+}
+
+func baseline(e *entry) uint64 {
+	if v, ok := baselines[e.Name]; ok {
+		return v
+	}
+	var max uint64
+	probe := func(b []byte) {
+		in := exact(b)
+		if wd != nil {
+			wd.Enter(e.Name, inputCase{e.Name, b, "baseline"})
+			defer wd.Leave()
+		}
+		// a panic on these inputs is reported when the enumeration reaches them
+		if g := preciseAlloc(e, in); g > max {
+			max = g
+		}
+	}
+	probe(nil)
+	for _, sd := range seedsOf(e) {
+		probe(sd)
+		if len(sd) > 0 {
+			m := append([]byte{}, sd...)
+			m[0] ^= 0xFF
+			probe(m)
+			probe(sd[:len(sd)-1])
+		}
+	}
+	if max > baselineCap {
+		max = baselineCap
+	}
+	baselines[e.Name] = max
+	return max
+}
+
+func allocBudget(e *entry, inputLen int) uint64 { return uint64(64*inputLen+allocSlack) + baseline(e) }
+
+// peak: the call that came closest to its budget without exceeding it (evidence: how much margin the
+// verdicts have on this tree).
+var peak struct {
+	ratio    float64
+	entry    string
+	grew     uint64
+	n        int
+	screened int
+}
+
+func notePeak(s *vf.Sub) {
+	s.Note("%d calls were put over half their allocation budget by the coarse counter and measured again exactly", peak.screened)
+	if peak.entry == "" {
+		s.Note("no call allocated more than 50%% of its budget without exceeding it")
+	} else {
+		s.Note("closest to the allocation budget without exceeding it: %s, %d bytes for a %d-byte input = %.0f%% of 64*len+%d+baseline %d", peak.entry, peak.grew, peak.n, 100*peak.ratio, allocSlack, baselines[peak.entry])
+	}
+}
+
 // callTotal is the validity predicate: the call returns (value or error) without panicking, within
-// the watchdog budget, allocating at most 64*len(input) + 1 MiB.
+// the watchdog budget, allocating at most 64*len(input) + 256 KiB + the entry point's baseline.
 func callTotal(c inputCase) []vf.Finding {
 	e := entryMap[c.Entry]
 	if e == nil {
 		return []vf.Finding{vf.F("harness", "bad-case", "unknown entry %s", c.Entry)}
 	}
 	in := exact(c.Input)
+	budget := allocBudget(e, len(c.Input))
 	if wd != nil {
 		wd.Enter(c.Entry, c)
 		defer wd.Leave()
 	}
 	before := allocated()
 	fs := vf.Safe(c.Entry, func() []vf.Finding { e.Call(in); return nil })
-	if grew := allocated() - before; grew > uint64(64*len(c.Input)+1<<20) {
-		fs = append(fs, vf.F(c.Entry, "alloc", "%d bytes allocated for a %d-byte input", grew, len(c.Input)))
+	grew := allocated() - before
+	if grew > budget/2 {
+		grew = preciseAlloc(e, c.Input)
+		peak.screened++
+	}
+	if grew > budget {
+		fs = append(fs, vf.F(c.Entry, "alloc", "%d bytes allocated for a %d-byte input (budget 64*len+%d+baseline %d = %d)", grew, len(c.Input), allocSlack, baselines[c.Entry], budget))
+	} else if r := float64(grew) / float64(budget); r > 0.5 && r > peak.ratio {
+		peak.ratio, peak.entry, peak.grew, peak.n = r, c.Entry, grew, len(c.Input)
 	}
 	return fs
 }
@@ -165,6 +276,12 @@ func mutations(seed []byte, text bool, yield func(b []byte, how string)) {
 // textMutations: structure-level edits of a text input – single characters deleted, separators
 // inserted, and whole tokens (maximal alphanumeric runs) removed with or without a neighbouring
 // separator, or doubled. "a.b.c.d/len" loses an octet, "{…}" loses a group, "user:LM:NT" a field.
+// caseShifting: U+212A KELVIN SIGN (3 bytes, lower case 'k' 1 byte), U+0130 (2 bytes, lower case
+// 'i'+U+0307 3 bytes), U+017F LONG S (2 bytes, upper case 'S' 1 byte), U+1E9E (3 bytes, lower case
+// U+00DF 2 bytes), U+2126 OHM SIGN (3 bytes, lower case U+03C9 2 bytes), U+023A (2 bytes, lower case
+// U+2C65 3 bytes).
+var caseShifting = []string{"\u212a", "\u0130", "\u017f", "\u1e9e", "\u2126", "\u023a"}
+
 func textMutations(seed []byte, yield func(b []byte, how string)) {
 	n := len(seed)
 	if n > 200 {
@@ -179,6 +296,21 @@ func textMutations(seed []byte, yield func(b []byte, how string)) {
 	}
 	for i := 0; i < n; i++ {
 		yield(cat(seed[:i], seed[i+1:]), "delete-char")
+	}
+	// valid multi-byte UTF-8 whose case mapping changes the byte length (strings.ToLower/ToUpper/
+	// EqualFold before or after a length check or an index computation): in place of as many bytes
+	// as the character has (the byte length stays what the decoder expects), in place of one byte,
+	// and inserted
+	for _, r := range caseShifting {
+		for i := 0; i <= n; i++ {
+			if i+len(r) <= n {
+				yield(cat(seed[:i], []byte(r), seed[i+len(r):]), "case-shifting-rune")
+			}
+			if i < n {
+				yield(cat(seed[:i], []byte(r), seed[i+1:]), "case-shifting-rune")
+			}
+			yield(cat(seed[:i], []byte(r), seed[i:]), "case-shifting-rune")
+		}
 	}
 	for i := 0; i <= n; i++ {
 		for _, sep := range []byte{'.', '/', ':', '-', ',', '{', '}', ' '} {
@@ -214,9 +346,11 @@ func TestSystematic(t *testing.T) {
 	wd = vf.NewWatchdog(s, 20*time.Second)
 	defer func() { wd = nil }()
 	s.Note("%d entry points; every valid encoding (seed) with all truncations, single-byte boundary corruptions at every position, 16/32-bit windows driven to extremes, pointer bytes", len(entryList))
+	defer notePeak(s)
 	vf.Enum(s, func(yield func(inputCase)) {
-		for _, e := range entryList {
-			for _, seed := range e.Seeds() {
+		for i := range entryList {
+			e := &entryList[i]
+			for _, seed := range seedsOf(e) {
 				mutations(seed, e.Text, func(b []byte, how string) {
 					s.Class(how)
 					yield(inputCase{e.Name, b, how})
@@ -237,14 +371,47 @@ func TestSystematic(t *testing.T) {
 	}, callTotal, nontrivial)
 }
 
+// TestRepeated: repeated-element seeds (repeat.go) under the same validity predicate, allocation
+// budget included.
+func TestRepeated(t *testing.T) {
+	quiet()
+	s := vf.Begin(t, P, "repeated-elements")
+	s.SetExhaustive()
+	wd = vf.NewWatchdog(s, 20*time.Second)
+	defer func() { wd = nil }()
+	defer notePeak(s)
+	vf.Enum(s, func(yield func(inputCase)) {
+		for _, r := range repeatedSeeds() {
+			e := entryMap[r.Entry]
+			if e == nil {
+				yield(inputCase{r.Entry, nil, "unknown-entry"})
+				continue
+			}
+			// a seed that is over its allocation budget as built (reported through the as-built case) costs
+			// up to seconds per call and its neighbours say nothing new: only the light neighbourhood
+			light := r.Light
+			if !light {
+				wd.Enter(r.Entry, inputCase{r.Entry, r.B, r.What + "/as-built"})
+				light = preciseAlloc(e, r.B) > allocBudget(e, len(r.B))
+				wd.Leave()
+			}
+			lightMutations(r.B, e.Text, light, func(b []byte, how string) {
+				s.Class(fmt.Sprintf("k=%d", r.K))
+				yield(inputCase{r.Entry, b, fmt.Sprintf("%s x%d/%s", r.What, r.K, how)})
+			})
+		}
+	}, callTotal, func(c inputCase) bool { return len(c.Input) >= 127 })
+}
+
 func TestRandom(t *testing.T) {
 	quiet()
 	s := vf.Begin(t, P, "random")
 	wd = vf.NewWatchdog(s, 20*time.Second)
 	defer func() { wd = nil }()
+	defer notePeak(s)
 	seeds := map[string][][]byte{}
-	for _, e := range entryList {
-		seeds[e.Name] = e.Seeds()
+	for i := range entryList {
+		seeds[entryList[i].Name] = seedsOf(&entryList[i])
 	}
 	vf.Rapid(s, vf.N(60000, 1500000), func(t *rapid.T) inputCase {
 		e := entryList[rapid.IntRange(0, len(entryList)-1).Draw(t, "entry")]
